@@ -403,6 +403,10 @@ def nat_roundtrip(h):
                       set_type('c_str', type='string', title='Text, "titled"', resources=None),
                       set_type('a_int', type='integer', title='A number', resources=None),
                       set_primary_key(['g_dt'], resources=0)]
+            if nres == 2 and h.rng.random() < 0.6:
+                # paths with a dotted stem that differ in that part only: every resource keeps a data file of its own
+                from dataflows import update_resource
+                typing += [update_resource('res_1', path='data/prices.2019.csv'), update_resource('res_2', path='data/prices.2020.csv')]
             opts = dict(format=fmt, add_filehash_to_path=hashpath)
             dumper = dump_to_zip(os.path.join(d, 'o.zip'), **opts) if zipped else dump_to_path(os.path.join(d, 'o'), **opts)
             def rekey(rows):
@@ -421,6 +425,14 @@ def nat_roundtrip(h):
             if not h.check(first[0] == 'ok', 'dump', cfg, 'dump ok', first[:2]):
                 continue
             src = os.path.join(d, 'o.zip') if zipped else os.path.join(d, 'o', 'datapackage.json')
+            if h.rng.random() < 0.4:
+                # the SAME data dumped once more in this process, to another place: that dump is complete by itself (what an earlier
+                # dump stored somewhere else is no reason to leave a file out here), and it is the one that is loaded back
+                dumper2 = dump_to_zip(os.path.join(d, 'again.zip'), **opts) if zipped else dump_to_path(os.path.join(d, 'again'), **opts)
+                second = h.run(lambda: Flow(*[[dict(r) for r in rs] for rs in data], *typing, rekey, dumper2).process())
+                if not h.check(second[0] == 'ok', 'dump', cfg + ('same data dumped again',), 'dump ok', second[:2]):
+                    continue
+                src = os.path.join(d, 'again.zip') if zipped else os.path.join(d, 'again', 'datapackage.json')
             back = h.run(lambda: Flow(load(src, format='datapackage') if zipped else load(src)).results())
             if not h.check(back[0] == 'ok', 'load', cfg, 'load ok', back[:2]):
                 continue
